@@ -16,7 +16,7 @@ import (
 
 func main() {
 	c := common.New("C01", "exploration")
-	cfgs := []driver.ProbeConfig{driver.CfgDefault, driver.CfgFollowSchema, driver.CfgFuncSyntax, driver.CfgWorker1}
+	cfgs := []driver.ProbeConfig{driver.CfgDefault, driver.CfgFollowSchema, driver.CfgFuncSyntax, driver.CfgWorker1, driver.CfgSplitFieldDir}
 	budget := 100 * time.Second
 	if c.Tier == "thorough" {
 		budget = 14 * time.Minute
